@@ -5,19 +5,20 @@
 # replay file it produced against the unchanged /repo: a replay that fails there is a false alarm
 # of the machinery.
 set -u
+VROOT="$(cd "$(dirname "$0")/.." && pwd)"
 P="$1"; ID="$2"; TIER="${3:-quick}"
 WT="${VERIF_WT:-/tmp/wt-mut}"; TAG=$(basename "$WT")
 RP=/tmp/mut-replays-$TAG; EV=/tmp/mut-evidence-$TAG; OUT=/tmp/try_mutant-$TAG.out
 [ -d "$WT" ] || git -C /repo worktree add -q --detach "$WT" HEAD || exit 3
 rm -rf "$RP" "$EV"; mkdir -p "$RP" "$EV"
 cd "$WT" && git checkout -q -- . && git clean -qfd && git apply "$P" || { echo "APPLY-FAILED $P"; exit 3; }
-cd /verif && VERIF_REPO="$WT" VERIF_EVIDENCE_DIR="$EV" VERIF_REPLAYS_DIR="$RP" ./check "$ID" "$TIER" > "$OUT" 2>&1; rc=$?
+cd "$VROOT" && VERIF_REPO="$WT" VERIF_EVIDENCE_DIR="$EV" VERIF_REPLAYS_DIR="$RP" ./check "$ID" "$TIER" > "$OUT" 2>&1; rc=$?
 grep -E "VIOLATION|class:|signature:|HARNESS|simharness: [0-9]+ runs" "$OUT" | cut -c1-260 | head -12
 echo "rc=$rc"
 cd "$WT" && git checkout -q -- . && git clean -qfd
 for f in "$RP"/*.json; do
   [ -e "$f" ] || continue
-  out=$(cd /verif && VERIF_EVIDENCE_DIR="$EV" ./check replay "$f" 2>&1); r=$?
+  out=$(cd "$VROOT" && VERIF_EVIDENCE_DIR="$EV" ./check replay "$f" 2>&1); r=$?
   if [ $r -ne 0 ]; then echo "FALSE-ALARM-ON-UNCHANGED-TREE: $f (rc=$r)"; echo "$out" | head -5; fi
 done
 exit $rc
